@@ -1,6 +1,7 @@
 """C16 — ConcurrentExecutionQueue: items consumed once, one consumer at a time, none stranded."""
 import json
 import os
+import threading
 import vlib
 from vlib import Check, VERIF, REPO
 
@@ -17,7 +18,7 @@ META = {
             "queue (if any) belongs to a producer that has not signalled yet, hence with no execute() in flight "
             "nothing published is pending, join() then returns only after everything was consumed, and at the end of "
             "every run every item was consumed exactly once (also after refused launches once a later launch was "
-            "accepted); no reachable state is a deadlock unless a refused launch is outstanding.  The comparison "
+            "accepted); while the counter is non-zero (join() has to wait) its unique owner is enabled.  The comparison "
             "operators, CAS operands, initial values and memory orders of execution_queue.h are regenerated on every "
             "run.  Tie: the real ConcurrentExecutionQueue<uint64_t> with the real ConcurrentBoundedQueue runs under a "
             "deterministic scheduler pre-empting at every atomic operation, with a harness Executor that refuses "
@@ -32,8 +33,10 @@ META = {
             "(consumed later, when the slower producer signals).  Proved as c16_never_stranded_refuted / "
             "c16_join_returns_after_refuted with vm_compute witnesses, replayed on the real code (program 'E,J|E'); "
             "the proved statements are the _partial ones (they add 'no execute() in flight' resp. 'head ticket "
-            "unsignalled').  Liveness is proved as deadlock-freedom of every reachable state (c16_join_returns_partial); "
-            "the step to termination under a fair scheduler is the standard argument and is not mechanised.  "
+            "unsignalled').  Liveness ('and it does return') is proved only as c16_join_returns_partial: whenever join() "
+            "must wait there is exactly one owner of the counter and it can take a step; that every owner reaches its "
+            "exit CAS (the queue drains) and termination under a fair scheduler are not mechanised - the scheduler runs "
+            "and the exhaustive model exploration (no STUCK outcome without a refused launch) cover them empirically.  "
             "Exactly-once relies on C01 (the inner queue delivers each ticket's value to the pop of that ticket).  "
             "Trusted: Coq kernel; translator; extraction + OCaml explorer; macro shim and dsched (sequentially "
             "consistent interleavings; memory orders are checked as obligations on the regenerated site tables).",
@@ -87,14 +90,22 @@ def main(argv):
     chk = Check("C16", argv)
     thorough = chk.tier == "thorough"
     chk.translate(["execution_queue"])
+    # the C++ driver (3 translation units through the macro shim) is built while Coq runs
+    built = {}
+
+    def build():
+        built["impl"] = chk.build_cpp("c16_execution_queue",
+                                      [os.path.join(VERIF, "harness/conc/c16_execution_queue.cpp"),
+                                       os.path.join(REPO, "src/babylon/executor.cpp"),
+                                       os.path.join(REPO, "src/babylon/basic_executor.cpp"),
+                                       os.path.join(VERIF, "harness/shim/dsched.cpp")],
+                                      flags=["-fno-access-control", "-include", "shim/prelude.h"], ldflags=["-ldl"])
+    bt = threading.Thread(target=build)
+    bt.start()
     chk.coq("Properties_C16.v")
     model = chk.extract("eq", "Extract_eq.v", "eq_driver.ml", explorer=True)
-    impl = chk.build_cpp("c16_execution_queue",
-                         [os.path.join(VERIF, "harness/conc/c16_execution_queue.cpp"),
-                          os.path.join(REPO, "src/babylon/executor.cpp"),
-                          os.path.join(REPO, "src/babylon/basic_executor.cpp"),
-                          os.path.join(VERIF, "harness/shim/dsched.cpp")],
-                         flags=["-fno-access-control", "-include", "shim/prelude.h"], ldflags=["-ldl"])
+    bt.join()
+    impl = built.get("impl")
     rng = chk.rng
     progs = []   # (pid, cap, mode, faults, program, small)
     if chk.replay:
